@@ -91,7 +91,7 @@ def rule_eos_poll(ctx):
     if not reads:
         raise AnalysisError('no probe read in %s' % f.short)
     var = norm(reads[0].ast.targets[0])
-    tests = [n for n in cfg.stmt_nodes() if n.kind == 'test' and norm(n.ast.test) in ('%s is None' % var, '%s is not None' % var)]
+    tests = [n for n in cfg.stmt_nodes() if n.kind in ('test', 'while') and norm(n.ast.test) in ('%s is None' % var, '%s is not None' % var)]
     answers = [n for n in cfg.stmt_nodes() if n.kind == 'stmt' and isinstance(n.ast, ast.Expr) and isinstance(n.ast.value, ast.Yield)
                and n.ast.value.value is not None and var in names_used(n.ast.value.value)]
     if not answers or not tests:
